@@ -500,7 +500,7 @@ func ruleFlagWrap(r *Run) {
 	for _, k := range flaggedClasses {
 		r.Check("C4b", "class-emitted["+k+"]", classSites[k] >= 1, 0, "class %s has at least one emission site (vacuity guard)", k)
 	}
-	r.Floor("C4b", "flagged emission sites", nSites, 11)
+	r.Floor("C4b", "flagged emission sites", nSites, 10) // one per flagged class (class-emitted checks each class separately)
 	// (d) FeatureFlags is read nowhere else
 	ffField := r.P.LookupField(pkgWS, "RealtimeHandler", "FeatureFlags")
 	if ffField == nil {
